@@ -498,3 +498,43 @@ package transport
 //@   assert at call Store#1 arg1 == true && streamID > id && streamID <= upperLimit && t.prevGoAwayID == id
 //@   assert at call append#1 streamID > id && streamID <= upperLimit && sameslice(arg0, streamsToClose)
 //@   assert at call closeStream#1 arg0 == t && arg2 == errStreamDrain && arg3 == false && arg5 == statusGoAway && arg7 == false
+
+// ---- C05: the receive buffer and its compaction ledger -----------------------------------------------
+//
+// Queue = channel c (capacity 1) followed by backlog. The last
+// uncompactedSuffixLen entries of the backlog are the tracked small messages and
+// uncompactedBytes is the sum of their lengths; because the tracked entries are
+// a SUFFIX, the head of the backlog is one of them only when the whole backlog is
+// tracked. After an error (or end of stream) has been queued nothing more is.
+
+//@ import envconfig "google.golang.org/grpc/internal/envconfig"
+
+//@ func (*recvBuffer).put
+//@   prop C05
+//@   opt atomic mu
+//@   requires b != nil && 0 <= b.uncompactedSuffixLen && b.uncompactedSuffixLen <= len(b.backlog)
+//@   assert at call Free#1 old(b.err) != nil && ncalls("append") == 0
+//@   assert at return 1 old(b.err) != nil && ncalls("append") == 0 && ncalls("compactBacklogLocked") == 0
+//@   assert at call append#1 old(b.err) == nil && b.err == r.err && sameslice(arg0, b.backlog)
+//@   assert at call compactBacklogLocked#1 arg0 == b && len(b.backlog) == old(len(b.backlog)) + 1
+
+//@ func (*recvBuffer).load
+//@   prop C05
+//@   opt atomic mu
+//@   requires b != nil && 0 <= b.uncompactedSuffixLen && b.uncompactedSuffixLen <= len(b.backlog)
+//@   assert at call Len#1 old(b.uncompactedSuffixLen) == old(len(b.backlog)) && b.uncompactedSuffixLen == old(b.uncompactedSuffixLen) - 1
+//@   assert at return end len(b.backlog) >= old(len(b.backlog)) - 1 && implies(envconfig.EnableReceiveBufferCompaction, 0 <= b.uncompactedSuffixLen && b.uncompactedSuffixLen <= len(b.backlog))
+//@   assert at return end implies(len(b.backlog) == old(len(b.backlog)), b.uncompactedSuffixLen == old(b.uncompactedSuffixLen) && b.uncompactedBytes == old(b.uncompactedBytes))
+//@   assert at return end implies(len(b.backlog) < old(len(b.backlog)) && old(b.uncompactedSuffixLen) < old(len(b.backlog)), b.uncompactedSuffixLen == old(b.uncompactedSuffixLen) && b.uncompactedBytes == old(b.uncompactedBytes))
+
+// compactBacklogLocked: a message without payload (error / end) or a large one
+// resets the ledger; otherwise the new message joins the tracked suffix; a
+// compaction allocates exactly the tracked byte count and replaces exactly the
+// tracked suffix.
+//@ func (*recvBuffer).compactBacklogLocked
+//@   prop C05
+//@   requires b != nil && 0 <= b.uncompactedSuffixLen && b.uncompactedSuffixLen < len(b.backlog)
+//@   assert at return 2 b.uncompactedBytes == 0 && b.uncompactedSuffixLen == 0 && len(b.backlog) == old(len(b.backlog))
+//@   assert at return 3 b.uncompactedBytes == 0 && b.uncompactedSuffixLen == 0 && len(b.backlog) == old(len(b.backlog))
+//@   assert at return 4 b.uncompactedSuffixLen == old(b.uncompactedSuffixLen) + 1 && b.uncompactedSuffixLen <= len(b.backlog) && len(b.backlog) == old(len(b.backlog))
+//@   assert at call Get#1 arg0 == b.uncompactedBytes && b.uncompactedSuffixLen == old(b.uncompactedSuffixLen) + 1
